@@ -88,7 +88,16 @@ def build_items(case):
     rng = random.Random(case["seed"])
     items = []
     if case["kind"] == "convert":
+        from coco.b09 import compiler
+        from ..gen import peggen
+
+        g = getattr(compiler.grammar, "_real", compiler.grammar)
         for i in range(case["n"]):
+            if i % 5 == 4:
+                # a sentence derived from the tool's own grammar object (accepted or not: the outcome must not vary)
+                text = peggen.PegSampler(g, random.Random(rng.random()), max_depth=18).gen()
+                items.append({"kind": "convert", "text": text, "opts": OPTS[i % len(OPTS)]})
+                continue
             if i % 3 == 2:
                 prog = progs.ProgGen(rng).program()
             else:
